@@ -21,7 +21,15 @@ pub fn conv_opt(cfg: Option<&DltFilterConfig>) -> Result<Option<ProcessedDltFilt
 pub fn convpanic(cfg: Option<&DltFilterConfig>) -> J { json!({"op": "convpanic", "flt": proj::opt(&cfg, |c| proj::filter_config(c)), "res": {"v": "panic"}}) }
 pub fn parse_res(buf: &[u8], flt: Option<&ProcessedDltFilterConfig>, sh: bool, with_rest: bool) -> J {
     let r = catch_unwind(AssertUnwindSafe(|| dlt_message(buf, flt, sh)));
+    // the remainder of a successful call must BE the input's suffix (same memory), not merely have a plausible length
+    if let Ok(Ok((rest, _))) = &r {
+        if !is_suffix(buf, rest) { return json!({"v": "misaligned", "consumed": 0, "n": 0}); }
+    }
     proj::parse_result(buf.len(), &r, with_rest)
+}
+/// `rest` is the tail of `buf` (by address and length)
+pub fn is_suffix(buf: &[u8], rest: &[u8]) -> bool {
+    rest.len() <= buf.len() && std::ptr::eq(rest.as_ptr(), buf[buf.len() - rest.len()..].as_ptr())
 }
 /// C03 only: a filter built directly (public fields), with a minimum level the conversions never produce
 pub fn parse_event_direct(buf: &[u8], cfg: &DltFilterConfig, invalid_level: u8, sh: bool) -> J {
@@ -38,8 +46,9 @@ pub fn parse_event(buf: &[u8], cfg: Option<&DltFilterConfig>, sh: bool) -> J {
 pub fn consume_res(buf: &[u8]) -> J {
     match catch_unwind(AssertUnwindSafe(|| dlt_consume_msg(buf))) {
         Err(_) => json!({"v": "panic"}),
-        Ok(Ok((rest, Some(n)))) => json!({"v": "skipped", "consumed": n, "rest_len": rest.len()}),
-        Ok(Ok((rest, None))) => json!({"v": "none", "rest_len": rest.len()}),
+        // the remainder must be the input's suffix behind the reported count (none: the whole input): otherwise its own class
+        Ok(Ok((rest, Some(n)))) => if is_suffix(buf, rest) && n as usize + rest.len() == buf.len() { json!({"v": "skipped", "consumed": n, "rest_len": rest.len()}) } else { json!({"v": "misaligned", "consumed": n, "rest_len": rest.len()}) },
+        Ok(Ok((rest, None))) => if is_suffix(buf, rest) && rest.len() == buf.len() { json!({"v": "none", "rest_len": rest.len()}) } else { json!({"v": "misaligned", "consumed": 0, "rest_len": rest.len()}) },
         Ok(Err(DltParseError::IncompleteParse { needed })) => json!({"v": "inc", "hint": match needed { Some(n) => json!([n.get()]), None => json!([]) }}),
         Ok(Err(_)) => json!({"v": "rej"}),
     }
@@ -334,8 +343,24 @@ pub fn record(mode: &str, seed: u64, n: usize, out: &mut Out) {
                     }
                     out.emit(nopanic(consume_event(&x)), x.len() >= 4);
                     if x.len() > 5000 {
-                        // large inputs: the remaining entry points only occasionally (trace size)
-                        if r.one_in(4) { out.calls += 1; out.emit(nopanic(zstr_event(&x, 65535)), true); }
+                        // large inputs (> 64 KiB among them): every remaining entry point too; the event keeps the whole input only when
+                        // the outcome is a panic (trace size), otherwise its first bytes and its length
+                        let slim = |mut e: J| -> J {
+                            if e["res"]["v"] != "panic" {
+                                if let Some(b) = e.get("buf").and_then(|b| b.as_array()).map(|b| b.len()) { let head: Vec<J> = e["buf"].as_array().unwrap()[..32.min(b)].to_vec(); e["buf_len"] = json!(b); e["buf"] = J::Array(head); }
+                                if let Some(d) = e.get("data").and_then(|b| b.as_array()).map(|b| b.len()) { let head: Vec<J> = e["data"].as_array().unwrap()[..32.min(d)].to_vec(); e["data_len"] = json!(d); e["data"] = J::Array(head); }
+                            }
+                            e
+                        };
+                        out.calls += 4;
+                        out.emit(slim(nopanic(skip_event(&x))), true);
+                        out.emit(slim(nopanic(forward_event(&x))), true);
+                        let size = *r.pick(&[65535usize, 65534, 4, x.len().min(65535), 0]);
+                        out.emit(slim(nopanic(zstr_event(&x, size))), true);
+                        // construction over the whole input: a few fixed-size fields, then a string / raw field whose length prefix is whatever stands there
+                        let types: Vec<TypeInfo> = [TypeInfoKind::Unsigned(TypeLength::BitLength32), TypeInfoKind::StringType, TypeInfoKind::Raw, TypeInfoKind::Signed(TypeLength::BitLength128), TypeInfoKind::Raw]
+                            .iter().map(|k| TypeInfo { kind: k.clone(), coding: StringCoding::UTF8, has_variable_info: false, has_trace_info: false }).collect();
+                        out.emit(slim(nopanic(construct_event(r.coin(), &types, &x))), true);
                         continue;
                     }
                     out.calls += 4;
@@ -561,19 +586,24 @@ pub fn record(mode: &str, seed: u64, n: usize, out: &mut Out) {
                 let cfg = random_filter(&mut r, None);
                 out.emit(frame_event(&stream, Some(&cfg), true, "parse"), true);
             }
-            for _ in 0..n {
+            for i in 0..n {
                 let sh = r.below(4) != 0;
                 let nm = 1 + r.below(4) as usize;
                 let mut stream = vec![];
-                for _ in 0..nm {
+                let mut last: Option<Message> = None;
+                for j in 0..nm {
                     if sh && r.one_in(3) { stream.extend(junk_bytes(&mut r)); }
-                    let m = gen::message(&mut r, &MsgOpts { storage: Some(sh), big: 16, max_args: 2 });
+                    // frames whose length field has a non-zero high byte (256 .. 1000 bytes; now and then up to 65535): the counts a filtered-out
+                    // marker and the skipper report are 16-bit quantities too
+                    let m = if i % 6 == 5 && j == 0 { gen::medium_message(&mut r, Some(sh)) } else if i % 40 == 17 && j == 0 { gen::boundary_message(&mut r, Some(sh)) }
+                            else { gen::message(&mut r, &MsgOpts { storage: Some(sh), big: 16, max_args: 2 }) };
                     let mut b = gen::ser(&m); if b.is_empty() { continue; }
-                    if r.one_in(3) { b = corrupt_payload(&mut r, &b, sh); }
+                    if r.one_in(3) && b.len() < 2000 { b = corrupt_payload(&mut r, &b, sh); }
                     stream.extend(b);
+                    last = Some(m);
                 }
                 if r.one_in(3) { let k = r.below(10) as usize; stream.extend(r.bytes(k)); }
-                let cfg = if r.coin() { Some(random_filter(&mut r, None)) } else { None };
+                let cfg = if r.coin() { Some(random_filter(&mut r, if i % 2 == 0 { last.as_ref() } else { None })) } else { None };
                 let mut calls = 0u64;
                 let e = session_event(&stream, sh, cfg.as_ref(), "parse", &mut calls);
                 out.emit(e, true);
@@ -601,10 +631,11 @@ pub fn record(mode: &str, seed: u64, n: usize, out: &mut Out) {
         "filter" => {
             out.keep_convpanic = true;
             for i in 0..n {
-                let m = gen::message(&mut r, &MsgOpts { storage: None, big: 12, max_args: 2 });
+                // (every seventh message with a length of 256 .. 1000 bytes, now and then one at the 16-bit limit: the payload length a marker carries)
+                let m = if i % 7 == 3 { gen::medium_message(&mut r, None) } else if i % 50 == 21 { gen::boundary_message(&mut r, None) } else { gen::message(&mut r, &MsgOpts { storage: None, big: 12, max_args: 2 }) };
                 let sh = m.storage_header.is_some();
                 let mut b = gen::ser(&m); if b.is_empty() { continue; }
-                if i % 9 == 8 { b = corrupt_payload(&mut r, &b, sh); }
+                if i % 9 == 8 && b.len() < 2000 { b = corrupt_payload(&mut r, &b, sh); }
                 let k = r.below(4) as usize;
                 b.extend(r.bytes(k));
                 for j in 0..3 {
